@@ -70,6 +70,22 @@ def gen_cases(seed, tier):
         if dom["k"] > 1 and mode == "dens":
             mode = "big"
         add("prim", dom, target=str(rng.choice(["interior", "boundary"])), mode=mode, nsmall=int(rng.choice([1, 2, 10])))
+    for i in range(4 if quick else 60):
+        # parallelograms / triangles whose side ratio differs between the parameter rows (only one corner moves):
+        # the split of the boundary points over the sides is a per-row quantity
+        o = rng.uniform(-2, 2, 2)
+        w0, h0 = float(rng.uniform(0.3, 0.6)), float(rng.uniform(0.8, 1.5))
+        ang = float(rng.choice([0.0, rng.uniform(0, 2 * math.pi)]))
+        R = np.array([[math.cos(ang), -math.sin(ang)], [math.sin(ang), math.cos(ang)]])
+        c1, g1 = o + R @ np.array([w0, 0.0]), R @ np.array([float(rng.uniform(1.5, 2.5)), 0.0])
+        c2 = o + R @ np.array([0.0, h0])
+        spec = {"prim": "parallelogram" if i % 3 else "triangle", "var": "x", "origin": [float(o[0]), float(o[1])],
+                "c1": {"a": [float(c1[0]), float(c1[1])], "terms": [{"var": "t", "col": 0, "kind": "lin", "coef": [float(g1[0]), float(g1[1])]}]},
+                "c2": [float(c2[0]), float(c2[1])]}
+        tv = rng.permutation(np.array([0.0, 1.0, 2.0]))[:3] + rng.uniform(0, 0.05, 3)
+        dom = {"spec": spec, "rows": {"t": [[float(np.float32(v))] for v in tv]}, "k": 3,
+               "info": {"kind": "prim", "dim": 2, "dep": True, "relations": ["side_ratio"], "desc": geo.ref(spec).desc() + "~ratio"}}
+        add("prim", dom, target="boundary", mode="big" if i % 2 == 0 else "small", nsmall=10)
     n_comp = 36 if quick else 400
     # (kind, target, mode, nsmall, required root operation) -- the first comp cases are forced so that every anchored
     # mechanism is reached for every seed
@@ -193,7 +209,32 @@ def gen_cases(seed, tier):
         add("lhs", dom, n=int(rng.choice([1, 2, 5, 17, 64, 301])))
     for i in range(24 if quick else 240):
         dom = gen_geo.gen_domain(rng, max_depth=1, allow=("prim", "prim", "bool"), k=0, dep=False)
+        if i == 0:
+            # every seed reaches the circle grid
+            cc = rng.uniform(-2, 2, 2)
+            sp_ = {"prim": "circle", "var": "x", "center": [float(cc[0]), float(cc[1])], "radius": float(rng.uniform(0.5, 1.5))}
+            dom = {"spec": sp_, "rows": {}, "k": 0, "info": {"kind": "prim", "dim": 2, "dep": False, "relations": [], "desc": "C"}}
         add("grid", dom, n=int(rng.choice([60, 200, 900, 2500])))
+    for i in range(8 if quick else 120):
+        # boundary grids by n on operations whose two boundary parts have very different sizes and are complete
+        # (a small hole in a big shape, a big and a small shape apart): each part gets its share of the points
+        big, small = float(rng.uniform(1.5, 3.0)), float(rng.uniform(0.12, 0.3))
+        c = rng.uniform(-2, 2, 2)
+
+        def shape(kind, cc, sz):
+            if kind == "circle":
+                return {"prim": "circle", "var": "x", "center": [float(cc[0]), float(cc[1])], "radius": sz}
+            return {"prim": "parallelogram", "var": "x", "origin": [float(cc[0] - sz), float(cc[1] - sz)], "c1": [float(cc[0] + sz), float(cc[1] - sz)],
+                    "c2": [float(cc[0] - sz), float(cc[1] + sz)]}
+        A = shape(str(rng.choice(["circle", "parallelogram"])), c, big)
+        if i % 2 == 0:
+            B = shape(str(rng.choice(["circle", "parallelogram"])), c + rng.uniform(-0.3, 0.3, 2) * big, small)
+            spec = {"op": "cut", "a": A, "b": B}
+        else:
+            B = shape(str(rng.choice(["circle", "parallelogram"])), c + np.array([2.2 * big + small, 0.0]), small)
+            spec = {"op": "union", "a": A, "b": B} if i % 4 == 1 else {"op": "union", "a": B, "b": A}
+        dom = {"spec": spec, "rows": {}, "k": 0, "info": {"kind": "bool", "dim": 2, "dep": False, "relations": ["parts"], "desc": geo.ref(spec).desc() + "~parts"}}
+        add("bgrid", dom, n=int(rng.choice([80, 200, 500])))
     return cases
 
 
@@ -684,6 +725,36 @@ def run_grid(case, res):
                                 "measure is %.4f (expected %.1f +- %.1f)" % (n, info["desc"], j, g, d, cg[j], share[j], n * share[j], tol[j]), **mech))
 
 
+def run_bgrid(case, res):
+    """boundary.sample_grid(n) of an operation with two complete boundary parts: each part holds its share of the points"""
+    info = case["info"]
+    D, node, Pp, env = sampling.build_case(case)
+    n = case["n"]
+    mech = {"fam": "bgrid", "root": info["kind"], "op": case["spec"]["op"]}
+    try:
+        probes.begin_call()
+        X = D.boundary.sample_grid(n=n).as_tensor.double().numpy()
+        probes.end_call()
+    except Exception as e:
+        res["viol"].append(viol("exception", "boundary.sample_grid(n=%d) on %s raised %s in %s: %s" % (n, info["desc"], type(e).__name__, exc_site(e),
+                                str(e)[:300]), exc=type(e).__name__, site=exc_site(e), **mech))
+        return
+    res["judged"] += 1
+    res["counters"]["boundary_grid_samples"] = res["counters"].get("boundary_grid_samples", 0) + 1
+    if len(X) != n:
+        res["viol"].append(viol("count", "boundary.sample_grid(n=%d) on %s returned %d points" % (n, info["desc"], len(X)), **mech))
+        return
+    fa, fb = np.abs(node.a.phi(X, {})), np.abs(node.b.phi(X, {}))
+    on_b = fb < fa
+    la, lb = float(node.a.bmeasure({}, 1)[0]), float(node.b.bmeasure({}, 1)[0])
+    want = n * lb / (la + lb)
+    got = int(on_b.sum())
+    tol = 4 + 0.25 * want                    # rounding of the two grid sizes plus the end points of the part grids
+    if abs(got - want) > tol:
+        res["viol"].append(viol("grid_not_even", "boundary.sample_grid(n=%d) on %s: %d points on the boundary of the second operand (length %.3g "
+                                "of %.3g in total), expected %.1f +- %.1f" % (n, info["desc"], got, lb, la + lb, want, tol), **mech))
+
+
 def run_case(case):
     res = {"cls": "", "judged": 0, "nontrivial": False, "viol": [], "counters": {}}
     info = case["info"]
@@ -697,6 +768,9 @@ def run_case(case):
     elif fam == "gauss":
         run_gauss(case, res)
         res["nontrivial"] = res["judged"] >= 2000
+    elif fam == "bgrid":
+        run_bgrid(case, res)
+        res["nontrivial"] = res["judged"] >= 1
     elif fam == "lhs":
         run_lhs(case, res)
         res["nontrivial"] = res["judged"] >= 1
